@@ -6,6 +6,7 @@ From QSX Require Import Base.QSum LP.ILP LP.Cert LP.User LP.OptTest LP.Driver.
 From QSX Require Import LP.Transform Float.Conv LP.Codes LP.LibSolution.
 From QSX Require Import Fac.Gauss Fac.Basis Fac.Factor.
 From QSX Require Import IO.Num IO.Equiv IO.Bounds IO.Bas IO.Sol.
+From QSX Require Import Store.Spec Store.Api.
 (* one Require line per area may be added below *)
 
 Extraction Language OCaml.
@@ -23,5 +24,7 @@ Extraction "model.ml"
   read_num_gen get_value print_num equiv_by_name row_empty encode_bounds decode_bounds
   write_basis read_basis qs_write_basis
   print_section parse_line
+  sstep pstep dump_lines to_ulp empty_prob valid_args get_h
+  api_init api_edit api_solve api_load_basis api_exact_cert
   (* add names below, one line per area *)
   .
